@@ -26,7 +26,7 @@ Check (C09_byte_len_fits : forall n, n < 2 ^ 64 -> n < 256 ^ byte_len n /\ byte_
 
 Check (C09_xref_roundtrip : forall es aw bw data,
   table_in_range es -> write_stream es (lenN es) = Ok (aw, bw, data) ->
-  read_section 0 (lenN es) 1 aw bw data = Ok ((0, es), []) /\ aw <= 8 /\ bw <= 8).
+  read_section 0 (lenN es) 1 aw bw data = Ok ((0, es), []) /\ aw <= 8 /\ bw <= 8 /\ lenN data = lenN es * (1 + aw + bw)).
 
 Check (C09_prefix : forall ser s tr s' tr' fl,
   save ser s tr = Ok (s', tr', fl) -> exists ext, backend s' = backend s ++ ext).
